@@ -358,6 +358,11 @@ func c12DiscoverySeg(kind, prefix, seg string) (clause, detail string) {
 		}
 	}()
 	l := c12LayoutSeg(prefix, seg)
+	if seg == "\x00beside" {
+		// the home set (depth 2) is not spelled below the principal (depth 1): levels are depths, not nesting
+		p := strings.TrimSuffix(prefix, "/")
+		l = c12Layout{P: p, Principal: p + "/u/", HomeSet: p + "/homes/u/", Coll1: p + "/homes/u/k1/", Coll2: p + "/homes/u/k2", Obj: p + "/homes/u/k1/o1"}
+	}
 	h, _ := c12Handler(kind, prefix, l)
 	w := &harness.Wire{Handler: h}
 	ctx := context.Background()
@@ -575,7 +580,7 @@ func init() {
 				exs = append(exs, ex{kind, pf, "", "two-users"})
 				if strings.Count(pf, "/") <= 2 {
 					// every level of the layout named with characters that mean something in a URL
-					for _, seg := range []string{"a?b", "a#b", "a%41", "100%", "a b", "é", "a+b", "a;b=c", "a&b"} {
+					for _, seg := range []string{"a?b", "a#b", "a%41", "100%", "a b", "é", "a+b", "a;b=c", "a&b", "\x00beside"} {
 						exs = append(exs, ex{kind, pf, seg, "discovery-seg"})
 					}
 				}
